@@ -199,3 +199,83 @@ Print Assumptions C03_sin_rf_linearisation_partial.
 
 Example C03_phase_example : 1/1024 <= 2 * 314159 / 100000 / 60 <= 1/2.
 Proof. split; lra. Qed.
+
+(** *** 7. (family scaling) what main() hands to the RF maps and the drift map, over the definitions GENERATED from
+    main() on every run (Gen/Gen_Scaling.v, translate/scaling2coq.py: symbolic execution of main()'s set-up code;
+    [gen_angle] is the expression that reaches the `angle` parameter of the linear RFKickMap / DynamicRFKickMap
+    constructors, [gen_slip] the three expressions of DriftMap's `slip` argument, inlined down to the options
+    [L O_<getter>] and constants).  For every field, every interpretation [O] of comparisons/sqrt/..., every option
+    values [L]; a hypothesis such as [o_lt O 0 (L O_getStepsPerTrev) = false] says which branch of main() is taken. *)
+From Inovesa Require Model.ScalingOps Gen.Gen_Scaling Proofs.ScalingAngleP Gen.Gen_Ruler Proofs.RulerGenP.
+Module ScalingFamily.   (* imports and scopes stay local to this block *)
+Import ScalingOps Gen_Scaling ScalingAngleP Gen_Ruler RulerGenP.
+Local Open Scope F_scope.
+
+(** angle = 2 pi / StepsPerTs (StepsPerRevolution not positive, StepsPerTs >= 1): the statement of the property in terms
+    of the configuration; after StepsPerTs steps the phase has advanced by 2 pi (the orbit closes: section 6) *)
+Theorem C03_main_angle_is_two_pi_over_StepsPerTs :
+  forall (K : Fld) (O : Ops K) (L : leaf -> K) (B : bleaf -> bool),
+    o_lt O 0 (L O_getStepsPerTrev) = false -> o_lt O (L O_getStepsPerTsync) 1 = false ->
+    L O_getStepsPerTsync <> 0 ->
+    gen_angle K O L B = L C_two_pi / L O_getStepsPerTsync /\
+    gen_angle K O L B * L O_getStepsPerTsync = L C_two_pi.
+Proof. exact angle_is_two_pi_over_StepsPerTs. Qed.
+Print Assumptions C03_main_angle_is_two_pi_over_StepsPerTs.
+
+(** with StepsPerRevolution > 0 (and a given synchrotron frequency): StepsPerRevolution steps per turn times f_rev/f_s
+    turns per synchrotron period *)
+Theorem C03_main_angle_from_StepsPerRevolution :
+  forall (K : Fld) (O : Ops K) (L : leaf -> K) (B : bleaf -> bool),
+    o_lt O 0 (L O_getStepsPerTrev) = true -> o_is0 O (L O_getSyncFreq) = false ->
+    L O_getStepsPerTrev <> 0 -> L O_getRevolutionFrequency <> 0 -> L O_getSyncFreq <> 0 ->
+    gen_angle K O L B * (L O_getStepsPerTrev * L O_getRevolutionFrequency / L O_getSyncFreq) = L C_two_pi.
+Proof. exact angle_from_StepsPerRevolution. Qed.
+Print Assumptions C03_main_angle_from_StepsPerRevolution.
+
+(** the drift map receives the same angle as its first slip factor, and for alpha1 = alpha2 = 0 the slip vector is
+    [angle; 0; 0]: the parameters of [drift_off] in C03_drift_offsets_linear (section 2) are the generated ones *)
+Theorem C03_main_slip :
+  forall (K : Fld) (O : Ops K) (L : leaf -> K) (B : bleaf -> bool),
+    nth 0 (gen_slip K O L B) 0 = gen_angle K O L B /\ length (gen_slip K O L B) = 3%nat /\
+    (L O_getAlpha1 = 0 -> L O_getAlpha2 = 0 -> gen_slip K O L B = [gen_angle K O L B; 0; 0]) /\
+    (o_is0 O (L O_getSyncFreq) = true -> L O_getAlpha0 <> 0 ->
+     gen_slip K O L B = [gen_angle K O L B; L O_getAlpha1 / L O_getAlpha0 * gen_angle K O L B;
+                         L O_getAlpha2 / L O_getAlpha0 * gen_angle K O L B]).
+Proof. exact main_slip. Qed.
+Print Assumptions C03_main_slip.
+
+Theorem C03_main_drift_is_linear :
+  forall (K : Fld) (O : Ops K) (L : leaf -> K) (B : bleaf -> bool) (scale1 e0 : K) (n : Z) (mn mx : K) (y : Z),
+    L O_getAlpha1 = 0 -> L O_getAlpha2 = 0 -> mn <> mx -> fz (K:=K) (n - 1) <> 0 -> e0 <> 0 ->
+    drift_off (gen_slip K O L B) scale1 e0 (ruler_delta n mn mx) (ruler_at mn (ruler_delta n mn mx) y) =
+    gen_angle K O L B * (fz y - ruler_zerobin n mn mx).
+Proof. exact main_drift_is_linear. Qed.
+Print Assumptions C03_main_drift_is_linear.
+
+(** the Ruler of Model/RF.v (sections 1, 2) is the constructor of Ruler<meshaxis_t> as read from inc/PS/Ruler.hpp on every
+    run (Gen/Gen_Ruler.v, translate/ruler2coq.py: mem-initialisers of _delta and _zerobin, coordinate loop), and the zero-bin
+    statement holds for the generated expressions themselves *)
+Theorem C03_ruler_is_source :
+  forall (K : Fld) (steps : Z) (mn mx delta : K) (i : Z),
+    fz (K:=K) (steps - 1) <> 0 ->
+    gen_ruler_delta K (fz steps) mn mx = ruler_delta steps mn mx /\
+    gen_ruler_zerobin K (fz steps) mn mx = ruler_zerobin steps mn mx /\
+    gen_ruler_at K mn delta (fz i) = ruler_at mn delta i.
+Proof. exact gen_ruler_is_model. Qed.
+Print Assumptions C03_ruler_is_source.
+
+Theorem C03_zerobin_correct_source :
+  forall (K : Fld) (steps : Z) (mn mx : K),
+    mn <> mx -> fz (K:=K) (steps - 1) <> 0 ->
+    gen_ruler_zerobin K (fz steps) mn mx = - mn / gen_ruler_delta K (fz steps) mn mx /\
+    gen_ruler_at K mn (gen_ruler_delta K (fz steps) mn mx) (gen_ruler_zerobin K (fz steps) mn mx) = 0.
+Proof. exact gen_zerobin_correct. Qed.
+Print Assumptions C03_zerobin_correct_source.
+
+(** non-vacuity over Qc: StepsPerTs = 50, two_pi := 44/7 -> angle = 22/175; every other option 1 *)
+Example C03_main_angle_example :
+  let L := fun l => match l with O_getStepsPerTsync => Q2Qc 50 | C_two_pi => Q2Qc (44 # 7) | O_getStepsPerTrev => 0%Qc | _ => 1%Qc end in
+  this (gen_angle QcF QcOps L (fun _ => false)) = (22 # 175)%Q /\
+  o_lt QcOps 0%Qc (L O_getStepsPerTrev) = false /\ o_lt QcOps (L O_getStepsPerTsync) 1%Qc = false.
+Proof. vm_compute. repeat split; reflexivity. Qed.
+End ScalingFamily.
